@@ -285,6 +285,58 @@ def python_obligations(ctx, files):
             ctx.obligation('translate _inject_mutations_%dD (guards and influx formula)' % d, True, 'translator')
         except (pyexpr.Refuse, SyntaxError, OSError) as e:
             ctx.obligation('translate _inject_mutations_%dD (guards and influx formula)' % d, False, 'translator', str(e))
+    # --- time-step rule: the maxVM expression of _compute_dt = maxVM of the model (Rmax/Rabs)
+    try:
+        import ast as _ast
+        tree = _ast.parse(open(path).read())
+        fn = [n for n in tree.body if isinstance(n, _ast.FunctionDef) and n.name == '_compute_dt'][0]
+        if [a.arg for a in fn.args.args] != ['dx', 'nu', 'ms', 'gamma', 'h']:
+            raise pyexpr.Refuse('_compute_dt parameters')
+        asg = [n for n in _ast.walk(fn) if isinstance(n, _ast.Assign) and isinstance(n.targets[0], _ast.Name) and n.targets[0].id == 'maxVM']
+        if len(asg) != 1:
+            raise pyexpr.Refuse('maxVM assigned %d times' % len(asg))
+        def tr(e):
+            if isinstance(e, _ast.BinOp):
+                op = {_ast.Add: '+', _ast.Sub: '-', _ast.Mult: '*', _ast.Div: '/'}.get(type(e.op))
+                if op is None:
+                    raise pyexpr.Refuse('operator')
+                return '(%s %s %s)' % (tr(e.left), op, tr(e.right))
+            if isinstance(e, _ast.Constant):
+                return pyexpr.const_to_coq(e.value)
+            if isinstance(e, _ast.Name) and e.id in ('nu', 'gamma', 'h'):
+                return e.id
+            if isinstance(e, _ast.Call):
+                f = e.func
+                nm = f.attr if isinstance(f, _ast.Attribute) else getattr(f, 'id', None)
+                if nm == 'max' and len(e.args) >= 2 and not e.keywords:
+                    t = tr(e.args[0])
+                    for a in e.args[1:]:
+                        t = '(Rmax %s %s)' % (t, tr(a))
+                    return t
+                if nm == 'abs' and len(e.args) == 1:
+                    return '(Rabs %s)' % tr(e.args[0])
+                if nm == 'sum' and len(e.args) == 1 and isinstance(e.args[0], _ast.Name) and e.args[0].id == 'ms':
+                    return '(nsum ms)'
+            raise pyexpr.Refuse('expression in maxVM')
+        term = tr(asg[0].value)
+        # the rest of the rule: dt = timescale_factor / maxVM when maxVM > 0
+        src_fn = _ast.get_source_segment(open(path).read(), fn)
+        if 'dt = timescale_factor / maxVM' not in src_fn or 'if maxVM > 0:' not in src_fn:
+            raise pyexpr.Refuse('dt = timescale_factor / maxVM under maxVM > 0 not found')
+        body.append('Lemma nmax_Rmax (a b : R) : nmax a b = Rmax a b.')
+        body.append('Proof. unfold nmax, Rmax. numR. unfold Rleb. destruct (Rle_dec a b); reflexivity. Qed.')
+        body.append('Lemma nabs_Rabs (a : R) : nabs a = Rabs a.')
+        body.append('Proof. unfold nabs. numR. unfold Rleb, Rabs. destruct (Rle_dec 0 a) as [H|H]; destruct (Rcase_abs a) as [H1|H1]; try lra; reflexivity. Qed.')
+        body.append('Lemma ob_compute_dt_maxVM : forall (nu gamma h : R) (ms : list R) beta fr nm, nu <> 0 ->')
+        body.append('  %s = maxVM {| p_nu := nu; p_gamma := gamma; p_h := h; p_beta := beta; p_ms := ms; p_frozen := fr; p_nomut := nm |}.' % term)
+        body.append('Proof. intros. unfold maxVM, quarter. cbn [p_nu p_gamma p_h p_ms]. rewrite !nmax_Rmax, !nabs_Rabs. nR.')
+        body.append('  replace (1 / (2 * 2)) with (1 / 4) by lra. rewrite <- ?Rmult_assoc.')
+        body.append('  repeat match goal with |- Rmax _ _ = Rmax _ _ => apply (f_equal2 Rmax) | |- ?a * Rmax _ _ = ?a * Rmax _ _ => apply (f_equal2 Rmult); [reflexivity|] end;')
+        body.append('  first [reflexivity | ring | lra | (field; assumption)]. Qed.')
+        names.append('compute_dt_maxVM')
+        ctx.obligation('translate the time-step rule _compute_dt (maxVM expression, dt = timescale_factor/maxVM)', True, 'translator')
+    except (pyexpr.Refuse, SyntaxError, OSError, IndexError) as e:
+        ctx.obligation('translate the time-step rule _compute_dt (maxVM expression, dt = timescale_factor/maxVM)', False, 'translator', str(e))
     files.append(('C02_ob_python', '\n'.join(body) + '\n', names))
 
 _CACHE = {}
